@@ -1,4 +1,5 @@
 import MtblProofs.TpProofs
+import MtblProofs.TpLive
 /-
   C13 — Pooled writers and sorters: same result under every interleaving, no hangs.
   Theorems about the transition system of mtbl/threadpool.c (MtblModel/Tp.lean): they hold for EVERY reachable state,
@@ -45,8 +46,37 @@ theorem C13_sleepers (hm : 1 ≤ max) (hr : Reachable max njobs ordered s) :
     (s.cpc = .next true → s.idle = [] ∧ s.count = s.max) ∧
     (s.cpc = .destroy true → s.idle = [] ∧ s.count ≠ 0) := Tp.C13_sleepers hm hr
 
-/- Liveness beyond deadlock freedom ("every call returns") needs a fair scheduler and finitely many spurious wake-ups;
-   it is not mechanised (DESIGN.md: C13 is claimed with liveness partial).  The reduction "a critical section is one atomic
-   step" rests on data-race freedom (C14). -/
+/-! ### no hangs: progress measure (liveness)
+
+  `Phi : St → Nat` (MtblProofs/TpLive.lean) = 8 · (work still owed by the caller, the handler and every worker) + (number
+  of threads standing awake at a loop head).  Every real step of ANY thread strictly decreases it, a spurious wake-up adds
+  at most one.  Consequences, for every pool size, job count and delivery order:
+   * `C13_steps_bounded`: along EVERY schedule — no fairness assumed — at most `128·njobs + 40·max + 42 + #spurious`
+     real steps happen; the pool cannot stay busy for ever (no livelock) unless the OS wakes sleepers spuriously for ever;
+   * `C13_no_hang`: when no thread can take a real step the caller has returned from `threadpool_destroy`
+     (contrapositive of deadlock freedom) — so every maximal execution with finitely many spurious wake-ups is finite and
+     ends with all calls returned;
+   * `C13_can_finish`: from every reachable state some schedule of at most `Phi s` real steps ends in the final state.
+  What remains outside the model: that the OS keeps scheduling some runnable thread, and the reduction of a critical
+  section to one atomic step (data-race freedom, C14). -/
+
+theorem C13_progress (hm : 1 ≤ max) (hr : Reachable max njobs ordered s) {l : Lbl} {s' : St} (hs : step s l = some s') :
+    match l with | .run _ => Phi s' < Phi s | .spurious _ => Phi s' ≤ Phi s + 1 :=
+  Tp.phi_step (Tp.inv_reachable hm hr) hs
+
+theorem C13_steps_bounded (hm : 1 ≤ max) (ls : List Lbl) :
+    (stepCount (init max njobs ordered) ls).1 ≤
+      128 * njobs + 40 * max + 42 + (stepCount (init max njobs ordered) ls).2 := Tp.steps_bounded hm ls
+
+theorem C13_no_hang (hm : 1 ≤ max) (hr : Reachable max njobs ordered s)
+    (hq : ∀ w, (step s (.run w)).isSome = false) : terminated s = true := Tp.no_hang hm hr hq
+
+theorem C13_can_finish (hm : 1 ≤ max) (hr : Reachable max njobs ordered s) :
+    ∃ ls : List Who, ls.length ≤ Phi s ∧ terminated (runSched s (ls.map .run)) = true := Tp.can_finish hm hr
+
+/-- non-vacuity: the example schedule (ordered, 2 threads, 3 jobs) takes 60 real steps and 10 spurious wake-ups, within the
+    bound 128·3 + 40·2 + 42 + 10; the potential starts at 506 and ends at 0 -/
+example : stepCount (init 2 3 true) Ex.schedOrd = (60, 10) ∧ Phi (init 2 3 true) = 506 ∧
+    Phi (runSched (init 2 3 true) Ex.schedOrd) = 0 := by decide +kernel
 
 end Tp.C13
